@@ -188,6 +188,24 @@ def run_objects(job):
         return [('machinery', f'{type(e).__name__}: {e}\n{traceback.format_exc()}')]
 
 
+def _mission_via(entry, a, b):
+    from AEIC.missions import Mission
+
+    from .traj_common import mission
+
+    if entry == 'from_toml':
+        return Mission.from_toml({'flight': [{'origin': a, 'destination': b, 'departure': '2024-09-01T12:00:00', 'arrival': '2024-09-01T18:00:00', 'load_factor': 1.0, 'aircraft_type': '738'}]})[0]
+    if entry == 'from_query_result':
+        from AEIC.missions.mission import iso_to_timestamp
+        from AEIC.missions.query import QueryResult
+
+        qr = QueryResult(departure=iso_to_timestamp('2024-09-01T12:00:00'), arrival=iso_to_timestamp('2024-09-01T18:00:00'), carrier='VF', flight_number='1',
+                         origin=a, origin_country='US', destination=b, destination_country='US', service_type='J', aircraft_type='738', engine_type=None,
+                         distance=17, seat_capacity=100, id=1, flight_id=1)  # fmt: skip
+        return Mission.from_query_result(qr)
+    return mission(a, b)
+
+
 def mission_distances():
     """Mission.gc_distance against the ground track between the airports."""
     import csv
@@ -205,7 +223,11 @@ def mission_distances():
         for b in codes:
             if a >= b:
                 continue
-            m1, m2 = mission(a, b), mission(b, a)
+            # GroundTrack.tla MissionEntries: a mission made by the constructor, from a TOML-like dictionary or from a
+            # database query result (whose STATED schedule distance - here deliberately 17 km - is a datum of the
+            # schedule, not the great-circle distance) is the same mission; one entry point per pair in turn
+            entry = ('constructor', 'from_toml', 'from_query_result')[n % 3]
+            m1, m2 = _mission_via(entry, a, b), mission(b, a)
             n += 1
             try:
                 d1, d2 = float(m1.gc_distance), float(m2.gc_distance)
@@ -215,7 +237,7 @@ def mission_distances():
             gt = GroundTrack.great_circle(m1.origin_position.location, m1.destination_position.location).total_distance
             _, _, ref = GEOD.inv(m1.origin_position.longitude, m1.origin_position.latitude, m1.destination_position.longitude, m1.destination_position.latitude)
             if not (math.isfinite(d1) and abs(d1 - gt) <= 1e-3 and abs(d1 - ref) <= 1e-3):
-                out.append(('mission-distance:not-ground-track-length', f'{a}-{b}: Mission.gc_distance = {d1}; ground track between the airports = {gt} m', (a, b)))
+                out.append(('mission-distance:not-ground-track-length', f'{a}-{b} (mission made by {entry}): Mission.gc_distance = {d1}; ground track between the airports = {gt} m', (a, b)))
             elif abs(d1 - d2) > 1e-3:
                 out.append(('mission-distance:not-symmetric', f'{a}-{b}: {d1} vs {b}-{a}: {d2}', (a, b)))
     return out, n
